@@ -61,6 +61,35 @@ type Mutation struct {
 
 var mutations = map[string][]Mutation{}
 
+// selfTestResults runs every registered mutation quietly and returns one record per mutation.
+func selfTestResults(prop string, fn checkFn, repo, verif string) []map[string]string {
+	var out []map[string]string
+	for _, m := range mutations[prop] {
+		rec := map[string]string{"mutation": m.Name, "file": m.File, "expected_rule_construct": m.Expect}
+		path := filepath.Join(repo, m.File)
+		b, err := os.ReadFile(path)
+		if err != nil || strings.Count(string(b), m.Old) != 1 {
+			rec["result"] = "skipped (anchor text not found exactly once in the current tree)"
+			out = append(out, rec)
+			continue
+		}
+		ov := map[string][]byte{path: []byte(strings.Replace(string(b), m.Old, m.New, 1))}
+		res := runCheck(prop, "quick", repo, verif, ov, fn, true)
+		rec["result"] = "missed"
+		for _, o := range res.run.newFailures() {
+			if strings.Contains(o.Key(), m.Expect) {
+				rec["result"] = "fired"
+				rec["reported"] = o.Key()
+			}
+		}
+		if rec["result"] == "missed" && len(res.run.Undecided) > 0 {
+			rec["result"] = "undecided: " + strings.Join(res.run.Undecided, "; ")
+		}
+		out = append(out, rec)
+	}
+	return out
+}
+
 func runSelfTest(prop string, fn checkFn, repo, verif string) int {
 	muts := mutations[prop]
 	if len(muts) == 0 {
